@@ -22,8 +22,42 @@ def build(repo, tier, seed):
     b["witness"] = witness
     b["assumptions"] += ["proved: Pipeline.evaluate returns x -> tail(rest(x)) with every step evaluated under the same options; keys/explain/validate are the union over tail and rest "
                          "(interface laws for Pipeline, PipelineStep, PartialApplication); Apply gives e >> p = p(o)(e(o)); one-level structural cases of __add__",
-                         "bounded only (labelled): associativity over all bracketings, identity, iteration order, recursion of __add__ over nested pipelines, the ~60 helper constructors of labrea.functions "
-                         "(operators are plain Python there)"]
+                         "bounded only (labelled): associativity over all bracketings, identity, iteration order, recursion of __add__ over nested pipelines"]
+    # ---- the helper steps of labrea.functions under contract (contracts/helpers_c13.py)
+    from . import helpers_c13
+    from .common import fn_hashes
+    from harness import helper_search
+    h_syn, h_und, drifted = helpers_c13.obligations(repo)
+    h_wit = None
+    if drifted:
+        # a step function that is no longer literally its specification: compared with it on the typed value universe (bounded)
+        h_wit, n_h = helper_search.search(names=drifted, limit_per_helper=40000)
+        for name in drifted:
+            if h_wit is not None and h_wit["case"]["helper"] == name:
+                h_syn.append({"name": f"helpers:C13:{name}:computes-the-documented-operation", "ok": False, "detail": h_wit["message"][:200], "group": "helpers:C13"})
+            else:
+                h_und.append((f"functions.{name}", ["the step function is no longer literally the specified operation; the bounded differential check against the specification found no difference"]))
+        b["bounded"].append({"what": "helpers whose step function has drifted from the literal specification: " + ", ".join(drifted), "bounds": "35-value pool for the input and each argument", "cases": n_h})
+    elif tier != "quick":
+        w2, n_h = helper_search.search(limit_per_helper=4000)
+        b["bounded"].append({"what": "differential check of all helper steps against their specifications (validates the specification table, not counted as proof)", "bounds": "35-value pool for the input and each argument, <= 4000 cases per helper", "cases": n_h})
+        if w2:
+            b["bounded_witnesses"].append(("helpers:C13(bounded)", w2))
+    b["syntactic"] += h_syn
+    b["undecided"] += h_und
+    fns = sorted(set(helpers_c13.SPEC) & set(repo.module("functions").functions))
+    hf, hh = fn_hashes(repo, [f"labrea.functions:{n}" for n in fns])
+    b["functions"] += hf
+    b["hashes"].update(hh)
+    b["group_hashes"]["helpers:C13"] = hh
+
+    def witness2(group, names, seed, inner=b["witness"]):
+        if group == "helpers:C13":
+            return h_wit
+        return inner(group, names, seed)
+    b["witness"] = witness2
+    b["assumptions"].append("helper steps (labrea.functions, 67 functions and constants): each step function, read off the constructor's AST (PipelineStep(partial(F, ..)) reduced to x -> F(.., x, ..)), "
+                            "IS the documented Python operation of contracts/helpers_c13.py SPEC up to renaming (group helpers:C13); Python's operators and builtins are not modelled")
     from . import definition_time
     pl_syn, pl_und = definition_time.plumbing(repo)
     b["syntactic"] += pl_syn
